@@ -94,6 +94,26 @@ static size_t fixed_value_width(carquet_physical_type_t type) {
  * ============================================================================
  */
 
+/* The deprecated min/max fields were "determined by signed comparison only"
+ * (parquet.thrift): for byte arrays that is not the order of the column
+ * (unsigned, bytewise), and writers disagreed on it, which is why the fields
+ * were replaced. Like other readers, use them for numeric columns only. */
+static bool deprecated_bounds_usable(const carquet_reader_t* reader, int32_t column_index) {
+    int32_t schema_idx = reader->schema->leaf_indices[column_index];
+    const parquet_schema_element_t* elem = &reader->schema->elements[schema_idx];
+    if (!elem->has_type) {
+        return false;
+    }
+    switch (elem->type) {
+        case CARQUET_PHYSICAL_BYTE_ARRAY:
+        case CARQUET_PHYSICAL_FIXED_LEN_BYTE_ARRAY:
+        case CARQUET_PHYSICAL_INT96:
+            return false;
+        default:
+            return true;
+    }
+}
+
 carquet_status_t carquet_reader_column_statistics(
     const carquet_reader_t* reader,
     int32_t row_group_index,
@@ -150,7 +170,8 @@ carquet_status_t carquet_reader_column_statistics(
         stats->min_value_size = pstats->min_value_len;
         stats->max_value = pstats->max_value;
         stats->max_value_size = pstats->max_value_len;
-    } else if (pstats->min_deprecated && pstats->min_deprecated_len > 0 &&
+    } else if (deprecated_bounds_usable(reader, column_index) &&
+               pstats->min_deprecated && pstats->min_deprecated_len > 0 &&
                pstats->max_deprecated && pstats->max_deprecated_len > 0) {
         stats->has_min_max = true;
         stats->min_value = pstats->min_deprecated;
